@@ -148,7 +148,7 @@ def pOrders (pairs : List Pair) (s : String) : Option (List Order) :=
              od := if buy then pp.quote else pp.base, dd := if buy then pp.base else pp.quote,
              price := ← pNat pr, amount := ← pNat am, openAmt := ← pNat op, offer := ← pNat off, remaining := ← pNat rem,
              received := ← pNat rc, status := ← pOStatus st, batch := ← pNat bt, expireAt := ← pInt ex,
-             taken := 0, refunded := 0, feeFwd := 0, paidOut := 0 }
+             taken := 0, refunded := 0, feeFwd := 0 }
     | _ => none
 
 def pMM (s : String) : Option (List MMIndex) :=
@@ -271,7 +271,7 @@ def leQ (x y : Pool) : Bool := x.app < y.app || (x.app == y.app && x.id ≤ y.id
 def leM (x y : MMIndex) : Bool := x.app < y.app || (x.app == y.app && (x.pair < y.pair || (x.pair == y.pair && x.owner ≤ y.owner)))
 def leF (x y : Farmer) : Bool := x.app < y.app || (x.app == y.app && (x.pool < y.pool || (x.pool == y.pool && x.owner ≤ y.owner)))
 
-def unghost (o : Order) : Order := { o with taken := 0, refunded := 0, feeFwd := 0, paidOut := 0 }
+def unghost (o : Order) : Order := { o with taken := 0, refunded := 0, feeFwd := 0 }
 
 def firstDiff [BEq α] [Repr α] : List α → List α → String
   | [], [] => ""
@@ -343,8 +343,6 @@ def monSupply (prev cur : State) (op : Option Op) (ok : Bool) : Bool :=
         | some (.depositAndFarm a _ pl ..) => a == q.app && pl == q.id
         | some (.unfarmAndWithdraw a _ pl ..) => a == q.app && pl == q.id
         | _ => false)
-
-def rateOf (cfg : Cfg) (a : Nat) : Nat := ((cfg.app? a).map (·.feeRate)).getD 0
 
 /-- the property's refund: unspent offer coin + the part of the fee reserve not attributable to the executed portion -/
 def specRefund (cfg : Cfg) (o : Order) : Nat :=
